@@ -96,3 +96,15 @@ Definition running (p : phase) : bool := match p with PRun _ | PInD _ => true | 
 (* executable acceptance of an observed trace *)
 Definition laccepts (n : nat) (y : lsys) (tr : list lact) : bool * bool :=
   (ordered y, match lrun n y linit tr with Some s => lfinishedb y s | None => false end).
+
+(* the same acceptance with the state re-tabulated after every step (evaluation of the plain function
+   representation is quadratic in the length of the schedule); equal to [laccepts] by laccepts_fast_eq *)
+Definition lnorm (y : lsys) (s : lstate) : lstate :=
+  let l := map s (seq 0 (ltasks y)) in fun x => nth x l PDone.
+Fixpoint lrun_fast (n : nat) (y : lsys) (s : lstate) (tr : list lact) : option lstate :=
+  match tr with
+  | [] => Some s
+  | a :: r => match lstep n y s a with Some s' => lrun_fast n y (lnorm y s') r | None => None end
+  end.
+Definition laccepts_fast (n : nat) (y : lsys) (tr : list lact) : bool * bool :=
+  (ordered y, match lrun_fast n y linit tr with Some s => lfinishedb y s | None => false end).
